@@ -54,6 +54,6 @@ ENTRY(h_fast_request, FastRequest, 1, 0, 1, ARR("fast", "zz"), ARR("", NS_FAST, 
 // first half only (safety + well-formed output) on the larger tree, for the parsers whose two-pass run is expensive
 ENTRY(h_sasl2_success_safe, Sasl2::Success, 3, 2, 0, ARR("success", "additional-data", "authorization-identifier", "bound", "resumed", "failed", "enabled", "zz"),
       ARR("", NS_SASL2, NS_BIND2, NS_SM, NS_FAST, "x:y"), ARR("h", "previd", "resume", "id", "max", "zz"), ARR("true"))
-ENTRY(h_sasl2_continue_safe, Sasl2::Continue, 3, 2, 0, ARR("continue", "additional-data", "tasks", "task", "text", "zz"), ARR("", NS_SASL2, NS_SASL, "x:y"), ARR("zz"), ARR("="))
+ENTRY(h_sasl2_continue_safe, Sasl2::Continue, 2, 2, 0, ARR("continue", "additional-data", "tasks", "task", "text", "zz"), ARR("", NS_SASL2, NS_SASL, "x:y"), ARR("zz"), ARR("="))
 ENTRY(h_sasl2_feature_safe, Sasl2::StreamFeature, 3, 2, 0, ARR("authentication", "mechanism", "inline", "bind", "fast", "sm", "zz"),
       ARR("", NS_SASL2, NS_BIND2, NS_FAST, NS_SM, "x:y"), ARR("tls-0rtt", "zz"), ARR("true", "false"))
